@@ -1192,12 +1192,14 @@ class OdeSystem(object):
             else:
                 return StateTuple(t=self.t[index], y=self.y[index], event=None)
         elif isinstance(index, slice):
+            # the recorded times decrease when the system was integrated backward: search on the increasing sequence sgn * t
+            sgn = -1 if self.counter > 0 and self.t[-1] < self.t[0] else 1
             if index.start is not None:
-                start_idx = deutil.search_bisection(self.t[:self.counter + 1], index.start)
+                start_idx = deutil.search_bisection(sgn * self.t, sgn * index.start)
             else:
                 start_idx = 0
             if index.stop is not None:
-                end_idx = deutil.search_bisection(self.t[:self.counter + 1], index.stop) + 1
+                end_idx = deutil.search_bisection(sgn * self.t, sgn * index.stop) + 1
             else:
                 end_idx = self.counter + 1
             if index.step is not None:
@@ -1209,15 +1211,14 @@ class OdeSystem(object):
             if self.__dense_output and self.sol is not None:
                 return StateTuple(t=index, y=self.sol(index), event=None)
             else:
-                nearest_idx = deutil.search_bisection(self.__t, index)
-                if nearest_idx < self.counter:
-                    if D.ar_numpy.abs(D.ar_numpy.to_numpy(self.t[nearest_idx] - index)) < D.ar_numpy.abs(
-                            D.ar_numpy.to_numpy(self.t[nearest_idx + 1] - index)):
-                        return StateTuple(t=self.t[nearest_idx], y=self.y[nearest_idx], event=None)
-                    else:
-                        return StateTuple(t=self.t[nearest_idx + 1], y=self.y[nearest_idx + 1], event=None)
-                else:
-                    return StateTuple(t=self.t[nearest_idx], y=self.y[nearest_idx], event=None)
+                sgn = -1 if self.counter > 0 and self.t[-1] < self.t[0] else 1
+                # first sample at or beyond `index` (in the direction of integration); its predecessor may be nearer
+                nearest_idx = deutil.search_bisection(sgn * self.t, sgn * index)
+                if nearest_idx > 0:
+                    if D.ar_numpy.abs(D.ar_numpy.to_numpy(self.t[nearest_idx - 1] - index)) < D.ar_numpy.abs(
+                            D.ar_numpy.to_numpy(self.t[nearest_idx] - index)):
+                        nearest_idx -= 1
+                return StateTuple(t=self.t[nearest_idx], y=self.y[nearest_idx], event=None)
 
     def __len__(self):
         return self.counter + 1
